@@ -11,10 +11,11 @@ import TddaVerif.Drv.Sql
 import TddaVerif.Drv.C17
 import TddaVerif.Drv.Gt
 import TddaVerif.Drv.Report
+import TddaVerif.Drv.TmpDir
 open Lean TddaVerif.Drv
 
 def handlers : List (String → Json → Option (R Json)) :=
-  [TddaVerif.Drv.C18.handle, TddaVerif.Drv.C16.handle, TddaVerif.Drv.C04.handle, TddaVerif.Drv.C19.handle, TddaVerif.Drv.Cx.handle, TddaVerif.Drv.C09.handle, TddaVerif.Drv.Rx.handle, TddaVerif.Drv.C05.handle, TddaVerif.Drv.Sql.handle, TddaVerif.Drv.C17.handle, TddaVerif.Drv.Gt.handle, TddaVerif.Drv.Report.handle]
+  [TddaVerif.Drv.C18.handle, TddaVerif.Drv.C16.handle, TddaVerif.Drv.C04.handle, TddaVerif.Drv.C19.handle, TddaVerif.Drv.Cx.handle, TddaVerif.Drv.C09.handle, TddaVerif.Drv.Rx.handle, TddaVerif.Drv.C05.handle, TddaVerif.Drv.Sql.handle, TddaVerif.Drv.C17.handle, TddaVerif.Drv.Gt.handle, TddaVerif.Drv.Report.handle, TddaVerif.Drv.TmpDir.handle]
 
 def dispatch (j : Json) : Json :=
   match j.getObjVal? "op" >>= Json.getStr? with
